@@ -18,6 +18,35 @@ def log(*a):
     print(*a, flush=True)
 
 
+def unwrap_tuples(out):
+    """TLC's pretty printer breaks a printed tuple that is wider than its page into one element per line
+    (`<< "TAG",` / `   5,` / `   "..." >>`): join such blocks back into the one-line form `<<"TAG", 5, "...">>`
+    every parser of PrintT output expects (a wrapped MISMATCH line would otherwise be dropped silently)."""
+    lines = out.split("\n")
+    res = []
+    i = 0
+    while i < len(lines):
+        l = lines[i]
+        if l.startswith('<< "') and not l.rstrip().endswith(">>"):
+            parts = [l.strip()]
+            j = i + 1
+            closed = False
+            while j < len(lines) and j < i + 200:
+                parts.append(lines[j].strip())
+                if lines[j].rstrip().endswith(">>"):
+                    closed = True
+                    break
+                j += 1
+            if closed:
+                joined = " ".join(parts)
+                res.append("<<" + joined[2:-2].strip() + ">>")
+                i = j + 1
+                continue
+        res.append(l)
+        i += 1
+    return "\n".join(res)
+
+
 class Ctx:
     def __init__(self, pid, tier, seed):
         self.pid, self.tier, self.seed = pid, tier, seed
@@ -85,7 +114,7 @@ class Ctx:
                 rc = p.returncode
             except Exception as e:  # pragma: no cover
                 raise Inconclusive("tlc failed to start: %s" % e)
-        out = open(outpath, errors="replace").read()
+        out = unwrap_tuples(open(outpath, errors="replace").read())
         res = dict(rc=rc, out=out, wall=time.time() - t, wd=wd, outpath=outpath)
         m = re.findall(r"(\d+) states generated, (\d+) distinct states found", out)
         if m:
